@@ -4,11 +4,19 @@
 //   rel_int / rel_str / rel_dbl : relation {eq,ne,gt,ge,lt,le,expect,expect_msg} x operand pair
 //   raises                      : expected type E (10) x behaviour of fn (returns, throws each of the 10 types,
 //                                 throws int) x entry point (expect_raises macro / expect_raises_fn directly)
+//   truth                       : expect / expect_msg x a raw (non-bool) arithmetic predicate of 15 types; the relation
+//                                 of these two macros is "the predicate converts to true"
+// Every helper call is also made under ambient states of the C++ runtime that do not depend on the operands:
+// from a destructor that runs during stack unwinding (the call sits in a try/catch inside the destructor, so
+// nothing leaves it), from inside a catch handler, from a destructor unwinding inside a handler, from another thread.
 // Oracle: the native C++ relation on the same operands, and std::is_convertible<const T*, const E*> (a compile
-// time fact about the hierarchy, independent of the catch ladder under test).
+// time fact about the hierarchy - exactly the types a `catch (const E&)` handler matches - independent of the
+// catch ladder under test).
 #include <math.h>
 
+#include <exception>
 #include <new>
+#include <thread>
 #include <type_traits>
 
 #include <phosg/JSON.hh>
@@ -57,6 +65,78 @@ static Outcome observe(F&& f) {
   return o;
 }
 
+// ---------------------------------------------------------------- ambient state of the call
+//
+// "Throws exactly when the relation is false" does not depend on where the call is made. where:
+//   0 plain   1 from a destructor running during stack unwinding (std::uncaught_exceptions() == 1)
+//   2 inside a catch handler (an exception is being handled, none is in flight)
+//   3 from a destructor unwinding inside a catch handler   4 on a freshly started thread
+// The callable given to in_context never lets an exception out (it observes / catches inside), which is what makes
+// the call legal inside a destructor: an exception may be thrown and caught within a destructor during unwinding.
+static const uint64_t kNumWhere = 5;
+static const char* kWhereNames[kNumWhere] = {"plain", "unwinding-destructor", "catch-handler", "unwinding-inside-handler", "other-thread"};
+
+struct Carrier {
+  int tag;
+}; // the exception whose propagation provides the context
+
+template <typename F>
+struct AtUnwind {
+  F& f;
+  ~AtUnwind() { f(); }
+};
+
+template <typename F>
+static void in_context(uint64_t where, F& f) {
+  switch (where) {
+    case 0:
+      f();
+      return;
+    case 1:
+      try {
+        AtUnwind<F> g{f};
+        throw Carrier{1};
+      } catch (const Carrier&) {
+      }
+      return;
+    case 2:
+      try {
+        throw Carrier{2};
+      } catch (const Carrier&) {
+        f();
+      }
+      return;
+    case 3:
+      try {
+        throw std::runtime_error("being handled");
+      } catch (const std::exception&) {
+        try {
+          AtUnwind<F> g{f};
+          throw Carrier{3};
+        } catch (const Carrier&) {
+        }
+      }
+      return;
+    case 4: {
+      std::thread t([&f] { f(); });
+      t.join();
+      return;
+    }
+    default:
+      throw std::logic_error("bad context code");
+  }
+}
+
+template <typename F>
+static Outcome observe_in(uint64_t where, F&& f) {
+  Outcome o;
+  auto g = [&] { o = observe(f); };
+  in_context(where, g);
+  return o;
+}
+
+static std::string at(uint64_t where) { return where == 0 ? std::string() : cat("@", kWhereNames[where]); }
+
 // the failure must carry the call site and the message
 static void check_failure(const Outcome& o, const char* file, uint64_t line, const std::string& msg, bool msg_is_literal, const std::string& what_must_contain, const std::string& cls) {
   VCHECK(o.threw, cat("must-fail:", cls), "helper returned normally although the expectation is false");
@@ -91,7 +171,7 @@ static const char* kRelMsg[6] = {"a != b", "a == b", "a <= b", "a < b", "a >= b"
   } while (0)
 
 template <typename T, typename TruthFn>
-static void run_relation(uint64_t rel, const T& a, const T& b, TruthFn truth, const char* tn) {
+static void run_relation(uint64_t rel, const T& a, const T& b, TruthFn truth, const char* tn, uint64_t where) {
   uint64_t line = 0;
   bool expected = false;
   std::string msg;
@@ -99,71 +179,173 @@ static void run_relation(uint64_t rel, const T& a, const T& b, TruthFn truth, co
   switch (rel) {
     case 0:
       expected = (a == b);
-      o = observe([&] { SITE(expect_eq(a, b)); });
+      o = observe_in(where, [&] { SITE(expect_eq(a, b)); });
       msg = kRelMsg[0];
       break;
     case 1:
       expected = (a != b);
-      o = observe([&] { SITE(expect_ne(a, b)); });
+      o = observe_in(where, [&] { SITE(expect_ne(a, b)); });
       msg = kRelMsg[1];
       break;
     case 2:
       expected = (a > b);
-      o = observe([&] { SITE(expect_gt(a, b)); });
+      o = observe_in(where, [&] { SITE(expect_gt(a, b)); });
       msg = kRelMsg[2];
       break;
     case 3:
       expected = (a >= b);
-      o = observe([&] { SITE(expect_ge(a, b)); });
+      o = observe_in(where, [&] { SITE(expect_ge(a, b)); });
       msg = kRelMsg[3];
       break;
     case 4:
       expected = (a < b);
-      o = observe([&] { SITE(expect_lt(a, b)); });
+      o = observe_in(where, [&] { SITE(expect_lt(a, b)); });
       msg = kRelMsg[4];
       break;
     case 5:
       expected = (a <= b);
-      o = observe([&] { SITE(expect_le(a, b)); });
+      o = observe_in(where, [&] { SITE(expect_le(a, b)); });
       msg = kRelMsg[5];
       break;
     case 6:
       expected = truth(a);
-      o = observe([&] { SITE(expect(truth(a))); });
+      o = observe_in(where, [&] { SITE(expect(truth(a))); });
       msg = "!(truth(a))";
       break;
     case 7:
       expected = truth(a) || truth(b);
-      o = observe([&] { SITE(expect_msg(truth(a) || truth(b), "custom message 7f3a")); });
+      o = observe_in(where, [&] { SITE(expect_msg(truth(a) || truth(b), "custom message 7f3a")); });
       msg = "custom message 7f3a";
       break;
     default:
       throw std::logic_error("bad relation code");
   }
-  std::string cls = cat(kRelNames[rel], ":", tn);
+  std::string cls = cat(kRelNames[rel], ":", tn, at(where));
   if (expected) {
     check_success(o, cls);
   } else {
     check_failure(o, __FILE__, line, msg, true, msg, cls);
   }
   ctx().cls(cat(kRelNames[rel], expected ? ":holds" : ":fails"));
+  ctx().cls(cat("where:", kWhereNames[where]));
 }
 
-// case: n = [rel, a, b]
+// the context code is the last number of a case; cases written before it existed have none (= plain)
+static uint64_t where_of(const Case& c, size_t idx) {
+  uint64_t w = c.n.size() > idx ? c.u(idx) : 0;
+  if (w >= kNumWhere) throw std::logic_error("bad context code");
+  return w;
+}
+
+// case: n = [rel, a, b, where]
 static void run_rel_int(const Case& c) {
   int64_t a = c.i(1), b = c.i(2);
-  run_relation<int64_t>(c.u(0), a, b, [](int64_t v) { return v != 0; }, "int64");
+  run_relation<int64_t>(c.u(0), a, b, [](int64_t v) { return v != 0; }, "int64", where_of(c, 3));
   ctx().nontrivial_case();
 }
-// case: n = [rel, a_bits, b_bits]
+// case: n = [rel, a_bits, b_bits, where]
 static void run_rel_dbl(const Case& c) {
   double a = c.d(1), b = c.d(2);
-  run_relation<double>(c.u(0), a, b, [](double v) { return static_cast<bool>(v); }, "double");
+  run_relation<double>(c.u(0), a, b, [](double v) { return static_cast<bool>(v); }, "double", where_of(c, 3));
   ctx().nontrivial_case();
 }
-// case: n = [rel], s = [a, b]
+// case: n = [rel, where], s = [a, b]
 static void run_rel_str(const Case& c) {
-  run_relation<std::string>(c.u(0), c.str(0), c.str(1), [](const std::string& v) { return !v.empty(); }, "string");
+  run_relation<std::string>(c.u(0), c.str(0), c.str(1), [](const std::string& v) { return !v.empty(); }, "string", where_of(c, 1));
+  ctx().nontrivial_case();
+}
+
+// ---------------------------------------------------------------- expect / expect_msg on a raw predicate
+//
+// The relation of expect(pred) / expect_msg(pred, msg) is "pred converts to true". The relation subchecks above hand
+// these two macros a bool; here the predicate is a raw value of an arithmetic (or unscoped enumeration) type, the
+// way `expect(count)`, `expect(ratio)`, `expect(flags & mask)` are written. The value is built from the two numbers
+// of the case; the expected verdict is computed on the representation (any value bit set / magnitude bits non-zero),
+// not through the conversion the macro performs.
+enum TruthEnum : uint16_t { kTruthEnumZero = 0 };
+
+static const uint64_t kNumTruthTypes = 15;
+static const char* kTruthTypeNames[kNumTruthTypes] = {"bool", "signed char", "unsigned char", "short", "unsigned short", "int", "unsigned",
+    "long", "unsigned long long", "__int128", "unsigned __int128", "float", "double", "long double", "enum:uint16"};
+
+template <typename T>
+static void run_truth_t(uint64_t helper, T v, bool expected, uint64_t where, const char* tn) {
+  if (static_cast<bool>(v) != expected) throw std::logic_error(cat("harness: representation model of ", tn, " disagrees with the language's conversion to bool"));
+  uint64_t line = 0;
+  std::string msg;
+  Outcome o;
+  if (helper == 0) {
+    o = observe_in(where, [&] { SITE(expect(v)); });
+    msg = "!(v)";
+  } else if (helper == 1) {
+    o = observe_in(where, [&] { SITE(expect_msg(v, "truth message 51c2")); });
+    msg = "truth message 51c2";
+  } else {
+    throw std::logic_error("bad helper code");
+  }
+  std::string cls = cat(helper == 0 ? "expect" : "expect_msg", ":raw-", tn, at(where));
+  if (expected) {
+    check_success(o, cls);
+  } else {
+    check_failure(o, __FILE__, line, msg, true, msg, cls);
+  }
+  ctx().cls(cat("truth:", tn, expected ? ":true" : ":false"));
+  ctx().cls(cat("where:", kWhereNames[where]));
+}
+
+template <typename T>
+static void run_truth_int(uint64_t helper, uint64_t lo, uint64_t hi, uint64_t where, const char* tn) {
+  // the value is the low sizeof(T) bytes of hi:lo
+  unsigned __int128 wide = (static_cast<unsigned __int128>(hi) << 64) | lo;
+  unsigned bits = sizeof(T) * 8;
+  unsigned __int128 mask = bits >= 128 ? ~static_cast<unsigned __int128>(0) : ((static_cast<unsigned __int128>(1) << bits) - 1);
+  unsigned __int128 kept = wide & mask;
+  T v;
+  memcpy(&v, &kept, sizeof(T)); // little-endian: the low bytes
+  run_truth_t<T>(helper, v, kept != 0, where, tn);
+}
+
+// case: n = [helper (0 expect, 1 expect_msg), type, lo, hi, where]
+static void run_truth(const Case& c) {
+  uint64_t helper = c.u(0), type = c.u(1), lo = c.u(2), hi = c.u(3), where = where_of(c, 4);
+  if (type >= kNumTruthTypes) throw std::logic_error("bad type code");
+  const char* tn = kTruthTypeNames[type];
+  switch (type) {
+    case 0: run_truth_t<bool>(helper, (lo & 1) != 0, (lo & 1) != 0, where, tn); break;
+    case 1: run_truth_int<signed char>(helper, lo, hi, where, tn); break;
+    case 2: run_truth_int<unsigned char>(helper, lo, hi, where, tn); break;
+    case 3: run_truth_int<short>(helper, lo, hi, where, tn); break;
+    case 4: run_truth_int<unsigned short>(helper, lo, hi, where, tn); break;
+    case 5: run_truth_int<int>(helper, lo, hi, where, tn); break;
+    case 6: run_truth_int<unsigned>(helper, lo, hi, where, tn); break;
+    case 7: run_truth_int<long>(helper, lo, hi, where, tn); break;
+    case 8: run_truth_int<unsigned long long>(helper, lo, hi, where, tn); break;
+    case 9: run_truth_int<__int128>(helper, lo, hi, where, tn); break;
+    case 10: run_truth_int<unsigned __int128>(helper, lo, hi, where, tn); break;
+    case 11: {
+      uint32_t b = static_cast<uint32_t>(lo);
+      float v;
+      memcpy(&v, &b, 4);
+      run_truth_t<float>(helper, v, (b & 0x7FFFFFFFu) != 0, where, tn); // anything but +-0, NaN included
+      break;
+    }
+    case 12: {
+      double v;
+      memcpy(&v, &lo, 8);
+      run_truth_t<double>(helper, v, (lo & 0x7FFFFFFFFFFFFFFFull) != 0, where, tn);
+      break;
+    }
+    case 13: {
+      // lo = signed significand, hi = signed binary exponent (clamped): covers the whole x87 range incl. subnormals, 0 and inf
+      int64_t e = static_cast<int64_t>(hi);
+      if (e > 20000) e = 20000;
+      if (e < -20000) e = -20000;
+      long double v = ldexpl(static_cast<long double>(static_cast<int64_t>(lo)), static_cast<int>(e));
+      run_truth_t<long double>(helper, v, !(v == 0.0L), where, tn);
+      break;
+    }
+    case 14: run_truth_t<TruthEnum>(helper, static_cast<TruthEnum>(lo & 0xFFFF), (lo & 0xFFFF) != 0, where, tn); break;
+  }
   ctx().nontrivial_case();
 }
 
@@ -176,9 +358,28 @@ struct CustomException : std::exception {
   const char* what() const noexcept override { return "custom-exception"; }
 };
 
-static const int kNumTypes = 10;
+// Hierarchies that are not trees. "E or derives from it" is decided operationally by what a `catch (const E&)`
+// handler matches (public unambiguous base); where the thrown type derives from E only through an ambiguous or
+// inaccessible base the statement leaves the verdict open and only the shape of a failure is checked.
+struct MultiBase : std::runtime_error, std::out_of_range { // two std::exception subobjects (diamond without a virtual base)
+  MultiBase() : std::runtime_error("multi-runtime"), std::out_of_range("multi-out-of-range") {}
+};
+struct VLeft : virtual std::exception {};
+struct VRight : virtual std::exception {};
+struct VDiamond : VLeft, VRight { // one shared std::exception subobject
+  const char* what() const noexcept override { return "virtual-diamond"; }
+};
+struct PrivRuntime : private std::runtime_error { // no accessible base at all
+  PrivRuntime() : std::runtime_error("private-runtime") {}
+};
+struct PlainStruct { // a class outside the std::exception hierarchy
+  int v = 7;
+};
+
+static const int kNumTypes = 15;
 static const char* kTypeNames[kNumTypes] = {"std::exception", "std::logic_error", "std::invalid_argument", "std::out_of_range", "std::runtime_error",
-    "JSON::parse_error", "expectation_failed", "std::bad_alloc", "custom:runtime_error", "custom:std::exception"};
+    "JSON::parse_error", "expectation_failed", "std::bad_alloc", "custom:runtime_error", "custom:std::exception",
+    "multi:runtime_error+out_of_range", "vleft:virtual-std::exception", "vdiamond:vleft+vright", "priv:private-runtime_error", "plain-struct"};
 
 template <int I>
 struct TypeAt;
@@ -202,21 +403,28 @@ template <>
 struct TypeAt<8> { using type = CustomRuntime; };
 template <>
 struct TypeAt<9> { using type = CustomException; };
+template <>
+struct TypeAt<10> { using type = MultiBase; };
+template <>
+struct TypeAt<11> { using type = VLeft; };
+template <>
+struct TypeAt<12> { using type = VDiamond; };
+template <>
+struct TypeAt<13> { using type = PrivRuntime; };
+template <>
+struct TypeAt<14> { using type = PlainStruct; };
 
 static const char* kInnerFile = "inner-site.cc";
 static const uint64_t kInnerLine = 424242;
 
 template <typename T>
 [[noreturn]] static void throw_one() {
-  if constexpr (std::is_same_v<T, std::exception>) throw std::exception();
-  else if constexpr (std::is_same_v<T, std::bad_alloc>) throw std::bad_alloc();
-  else if constexpr (std::is_same_v<T, CustomRuntime>) throw CustomRuntime();
-  else if constexpr (std::is_same_v<T, CustomException>) throw CustomException();
+  if constexpr (std::is_default_constructible_v<T>) throw T();
   else if constexpr (std::is_same_v<T, phosg::expectation_failed>) throw phosg::expectation_failed("inner failure", kInnerFile, kInnerLine);
   else throw T("thrown-by-fn");
 }
 
-// behaviours: 0 = returns, 1..10 = throws TypeAt<b-1>, 11 = throws int
+// behaviours: 0 = returns, 1..kNumTypes = throws TypeAt<b-1>, kNumTypes+1 = throws int
 static const int kNumBehaviours = kNumTypes + 2;
 static std::string behaviour_name(uint64_t b) {
   if (b == 0) return "returns";
@@ -226,8 +434,9 @@ static std::string behaviour_name(uint64_t b) {
 
 struct Cell {
   bool should_pass; // is_convertible<const T*, const E*>
-  Outcome (*via_macro)(uint64_t& line, bool& ran);
-  Outcome (*via_fn)(const char* file, uint64_t line, bool& ran);
+  bool open; // T derives from E, but only through an ambiguous or inaccessible base: no handler for E matches it
+  Outcome (*via_macro)(uint64_t where, uint64_t& line, bool& ran);
+  Outcome (*via_fn)(uint64_t where, const char* file, uint64_t line, bool& ran);
 };
 
 template <typename E, int B>
@@ -243,14 +452,14 @@ static void behave(bool& ran) {
 }
 
 template <typename E, int B>
-static Outcome cell_macro(uint64_t& line, bool& ran) {
+static Outcome cell_macro(uint64_t where, uint64_t& line, bool& ran) {
   auto fn = [&]() { behave<E, B>(ran); };
-  return observe([&] { SITE(expect_raises(E, fn)); });
+  return observe_in(where, [&] { SITE(expect_raises(E, fn)); });
 }
 template <typename E, int B>
-static Outcome cell_fn(const char* file, uint64_t line, bool& ran) {
+static Outcome cell_fn(uint64_t where, const char* file, uint64_t line, bool& ran) {
   auto fn = [&]() { behave<E, B>(ran); };
-  return observe([&] { phosg::expect_raises_fn<E>(file, line, fn); });
+  return observe_in(where, [&] { phosg::expect_raises_fn<E>(file, line, fn); });
 }
 
 template <typename E, int B>
@@ -263,10 +472,20 @@ static constexpr bool cell_should_pass() {
   }
 }
 
+template <typename E, int B>
+static constexpr bool cell_open() {
+  if constexpr (B == 0 || B == kNumTypes + 1) {
+    return false;
+  } else {
+    using T = typename TypeAt<B - 1>::type;
+    return std::is_base_of_v<E, T> && !std::is_convertible_v<const T*, const E*>;
+  }
+}
+
 template <int EI, int B>
 static Cell make_cell() {
   using E = typename TypeAt<EI>::type;
-  return Cell{cell_should_pass<E, B>(), &cell_macro<E, B>, &cell_fn<E, B>};
+  return Cell{cell_should_pass<E, B>(), cell_open<E, B>(), &cell_macro<E, B>, &cell_fn<E, B>};
 }
 
 template <int EI, int... Bs>
@@ -289,23 +508,31 @@ static const Cell& cell_at(uint64_t e, uint64_t b) {
   return table[e][b];
 }
 
-// case: n = [E, behaviour, entry]  (entry 0 = expect_raises macro, 1 = expect_raises_fn with an explicit site)
+// case: n = [E, behaviour, entry, where]  (entry 0 = expect_raises macro, 1 = expect_raises_fn with an explicit site)
 static void run_raises(const Case& c) {
-  uint64_t e = c.u(0), b = c.u(1), entry = c.u(2);
+  uint64_t e = c.u(0), b = c.u(1), entry = c.u(2), where = where_of(c, 3);
   const Cell& cell = cell_at(e, b);
   bool ran = false;
   uint64_t line = 0;
   const char* file = __FILE__;
   Outcome o;
   if (entry == 0) {
-    o = cell.via_macro(line, ran);
+    o = cell.via_macro(where, line, ran);
   } else {
     file = "explicit-site.cc";
     line = 1000 + e * 100 + b;
-    o = cell.via_fn(file, line, ran);
+    o = cell.via_fn(where, file, line, ran);
   }
-  std::string cls = cat("E=", kTypeNames[e], ",fn-", (b == 0 ? "returns" : b == kNumTypes + 1 ? "throws-non-std" : cell.should_pass ? "throws-matching" : "throws-other"));
+  std::string cls = cat("E=", kTypeNames[e], ",fn-", (b == 0 ? "returns" : b == kNumTypes + 1 ? "throws-non-std" : cell.should_pass ? "throws-matching" : cell.open ? "throws-derived-unreachable" : "throws-other"), at(where));
   VCHECK(ran, "fn-not-called", "expect_raises<", kTypeNames[e], "> never invoked fn");
+  ctx().cls(cat("where:", kWhereNames[where]));
+  if (cell.open) {
+    // e.g. E = std::exception, thrown type has two std::exception subobjects: "derives from E", yet no handler for E can
+    // match it. Either verdict is compatible with the statement; a failure must still be the helper's own.
+    ctx().exclude("expect_raises: thrown type derives from E only through an ambiguous or inaccessible base (verdict left open by the statement)");
+    if (o.threw) check_failure(o, file, line, "", false, "", cat("raises:", cls));
+    return;
+  }
   if (cell.should_pass) {
     VCHECK(!o.threw, cat("raises-must-pass:", cls), "expect_raises<", kTypeNames[e], ">(fn that ", behaviour_name(b), ") threw ", (o.is_expectation_failed ? "expectation_failed" : o.other_type), ": ", o.what);
   } else {
@@ -314,8 +541,10 @@ static void run_raises(const Case& c) {
     check_failure(o, file, line, "", false, "", cat("raises:", cls));
     VCHECK(!(o.file == kInnerFile) && o.line != kInnerLine, cat("raises-own-failure:", cls), "the exception thrown by fn escaped instead of the helper's failure");
   }
-  // non-trivial: fn returns, or E is a base of expectation_failed (the helper's own failure type can be swallowed)
-  if (b == 0 || e == 0 || e == 1 || e == 6) ctx().nontrivial_case();
+  // non-trivial: fn returns, or E is a base of expectation_failed (the helper's own failure type can be swallowed), or E / the
+  // thrown type is outside the tree-shaped std hierarchy (multiple, virtual, private inheritance, plain class), or the call is
+  // made under a non-plain ambient state
+  if (b == 0 || e == 0 || e == 1 || e == 6 || e >= 10 || (b >= 11 && b <= static_cast<uint64_t>(kNumTypes)) || where != 0) ctx().nontrivial_case();
   ctx().cls(cell.should_pass ? "raises:must-pass" : (b == 0 ? "raises:fn-returns" : "raises:wrong-type"));
 }
 
@@ -330,32 +559,112 @@ static void enum_rel_int(Enum& e) {
   for (uint64_t rel = 0; rel < 8; rel++)
     for (int64_t a : kInts)
       for (int64_t b : kInts)
-        if (e.mine(idx++)) e.exec(Case("rel_int").N(rel).I(a).I(b));
-  e.complete("8 helpers (expect_eq/ne/gt/ge/lt/le, expect, expect_msg) x all pairs over {INT64_MIN,-1,0,1,INT64_MAX}");
+        for (uint64_t w = 0; w < kNumWhere; w++)
+          if (e.mine(idx++)) e.exec(Case("rel_int").N(rel).I(a).I(b).N(w));
+  e.complete("8 helpers (expect_eq/ne/gt/ge/lt/le, expect, expect_msg) x all pairs over {INT64_MIN,-1,0,1,INT64_MAX} x 5 ambient states");
 }
 static void enum_rel_dbl(Enum& e) {
   uint64_t idx = 0;
   for (uint64_t rel = 0; rel < 8; rel++)
     for (double a : dbls())
       for (double b : dbls())
-        if (e.mine(idx++)) e.exec(Case("rel_dbl").N(rel).D(a).D(b));
-  e.complete("8 helpers x all pairs over {-inf,-0.0,0.0,1.5,inf,NaN}");
+        for (uint64_t w = 0; w < kNumWhere; w++)
+          if (e.mine(idx++)) e.exec(Case("rel_dbl").N(rel).D(a).D(b).N(w));
+  e.complete("8 helpers x all pairs over {-inf,-0.0,0.0,1.5,inf,NaN} x 5 ambient states");
 }
 static void enum_rel_str(Enum& e) {
   uint64_t idx = 0;
   for (uint64_t rel = 0; rel < 8; rel++)
     for (const auto& a : kStrs)
       for (const auto& b : kStrs)
-        if (e.mine(idx++)) e.exec(Case("rel_str").N(rel).S(a).S(b));
-  e.complete("8 helpers x all pairs over {\"\",\"a\",\"b\",\"aa\"}");
+        for (uint64_t w = 0; w < kNumWhere; w++)
+          if (e.mine(idx++)) e.exec(Case("rel_str").N(rel).N(w).S(a).S(b));
+  e.complete("8 helpers x all pairs over {\"\",\"a\",\"b\",\"aa\"} x 5 ambient states");
 }
 static void enum_raises(Enum& e) {
   uint64_t idx = 0;
   for (uint64_t E = 0; E < static_cast<uint64_t>(kNumTypes); E++)
     for (uint64_t b = 0; b < static_cast<uint64_t>(kNumBehaviours); b++)
       for (uint64_t entry = 0; entry < 2; entry++)
-        if (e.mine(idx++)) e.exec(Case("raises").N(E).N(b).N(entry));
-  e.complete("10 expected types x {fn returns, throws each of the 10 types, throws int} x {expect_raises macro, expect_raises_fn} = 240 cells");
+        for (uint64_t w = 0; w < kNumWhere; w++)
+          if (e.mine(idx++)) e.exec(Case("raises").N(E).N(b).N(entry).N(w));
+  e.complete("15 expected types x {fn returns, throws each of the 15 types, throws int} x {expect_raises macro, expect_raises_fn} = 510 cells x 5 ambient states");
+}
+
+// bit patterns that matter for some type: integer widths, and float / double encodings of 0.5, epsilon, NaN, inf, smallest (sub)normal
+static const std::vector<uint64_t> kTruthLo = {0, 1, 0x80, 0x100, 0x8000, 0x10000, 0x80000000ull, 0x100000000ull, 0x8000000000000000ull, ~0ull,
+    0x3F000000ull, 0xBF000000ull, 0x34000000ull, 0x7FC00000ull, 0x7F800000ull, 0x00800000ull, 0x3F7FFFFFull,
+    0x3FE0000000000000ull, 0xBFE0000000000000ull, 0x3CB0000000000000ull, 0x7FF8000000000000ull, 0x7FF0000000000000ull, 0x0010000000000000ull, 0x3FEFFFFFFFFFFFFFull};
+// high half of the 128-bit types / binary exponent of long double
+static const std::vector<uint64_t> kTruthHi = {0, 1, 0x8000000000000000ull, ~0ull, static_cast<uint64_t>(-64), static_cast<uint64_t>(-16445), static_cast<uint64_t>(-16446 - 64), 16383};
+
+static void enum_truth(Enum& e) {
+  uint64_t idx = 0;
+  for (uint64_t helper = 0; helper < 2; helper++)
+    for (uint64_t type = 0; type < kNumTruthTypes; type++)
+      for (uint64_t lo : kTruthLo)
+        for (uint64_t hi : kTruthHi)
+          for (uint64_t w = 0; w < kNumWhere; w++)
+            if (e.mine(idx++)) e.exec(Case("truth").N(helper).N(type).N(lo).N(hi).N(w));
+  e.complete("expect / expect_msg x 15 predicate types x 24 low-word x 8 high-word bit patterns x 5 ambient states");
+}
+
+// the ambient state of a generated case: half plain, the rest spread over the other four
+static uint64_t gen_where() {
+  uint64_t r = vg::below(16);
+  if (r < 8) return 0;
+  if (r < 12) return 1;
+  if (r < 14) return 2;
+  return r == 14 ? 3 : 4;
+}
+
+static Case gen_truth() {
+  uint64_t helper = vg::below(2);
+  uint64_t type = vg::below(kNumTruthTypes);
+  uint64_t lo = 0, hi = 0;
+  if (type == 11 || type == 12) {
+    // float / double: arbitrary bit patterns, small dyadic fractions scaled down to the subnormal range, specials
+    bool is_float = (type == 11);
+    switch (vg::below(4)) {
+      case 0: lo = vg::u64(); break;
+      case 1: lo = is_float ? vg::pick<uint64_t>({0, 0x80000000ull, 1, 0x7FC00000ull, 0x7F800000ull, 0xFF800000ull, 0x00800000ull, 0x007FFFFFull, 0x3F800000ull})
+                            : vg::pick<uint64_t>({0, 0x8000000000000000ull, 1, 0x7FF8000000000000ull, 0x7FF0000000000000ull, 0xFFF0000000000000ull, 0x0010000000000000ull, 0x000FFFFFFFFFFFFFull, 0x3FF0000000000000ull});
+        break;
+      default: {
+        int64_t num = vg::range(-1024, 1024);
+        int down = static_cast<int>(vg::below(is_float ? 160 : 1100));
+        if (is_float) {
+          float v = ldexpf(static_cast<float>(num), -10 - down);
+          uint32_t b;
+          memcpy(&b, &v, 4);
+          lo = b;
+        } else {
+          double v = ldexp(static_cast<double>(num), -10 - down);
+          memcpy(&lo, &v, 8);
+        }
+        break;
+      }
+    }
+  } else if (type == 13) {
+    lo = vg::coin() ? static_cast<uint64_t>(vg::range(-1024, 1024)) : vg::interesting64();
+    hi = static_cast<uint64_t>(vg::coin() ? vg::range(-80, 80) : vg::range(-16600, 16500));
+  } else {
+    // integers: zero, boundary values, arbitrary, and values whose low 8/16/32/48/63 bits are all zero
+    switch (vg::below(5)) {
+      case 0: lo = 0; break;
+      case 1: lo = vg::interesting64(); break;
+      case 2: lo = vg::u64(); break;
+      default: lo = (vg::u64() | 1) << vg::pick<unsigned>({8, 16, 32, 48, 63}); break;
+    }
+    switch (vg::below(4)) {
+      case 0: hi = 0; break;
+      case 1: hi = vg::interesting64(); break;
+      case 2: hi = vg::u64(); break;
+      default: hi = 1ull << vg::below(64); break;
+    }
+    if (vg::chance(1, 4)) lo = 0; // only the high word decides (128-bit types)
+  }
+  return Case("truth").N(helper).N(type).N(lo).N(hi).N(gen_where());
 }
 
 static Case gen_rel_int() {
@@ -369,7 +678,7 @@ static Case gen_rel_int() {
     case 2: b = static_cast<int64_t>(static_cast<uint64_t>(a) - 1); break;
     default: b = static_cast<int64_t>(vg::interesting64()); break;
   }
-  return Case("rel_int").N(rel).I(a).I(b);
+  return Case("rel_int").N(rel).I(a).I(b).N(gen_where());
 }
 static Case gen_rel_dbl() {
   uint64_t rel = vg::below(8);
@@ -387,7 +696,7 @@ static Case gen_rel_dbl() {
   };
   double a = one();
   double b = vg::chance(1, 3) ? a : one();
-  return Case("rel_dbl").N(rel).D(a).D(b);
+  return Case("rel_dbl").N(rel).D(a).D(b).N(gen_where());
 }
 static Case gen_rel_str() {
   uint64_t rel = vg::below(8);
@@ -398,17 +707,17 @@ static Case gen_rel_str() {
     case 1: b = a + vg::bytes_from("ab", 1); break;
     default: b = vg::bytes_from(std::string("ab\0\xff", 4), vg::below(5)); break;
   }
-  return Case("rel_str").N(rel).S(a).S(b);
+  return Case("rel_str").N(rel).N(gen_where()).S(a).S(b);
 }
 
 
 // ---------------------------------------------------------------- failures stay intact while later ones are raised
 //
 // A test runner may collect failures and report them later: the file / line / message an expectation_failed
-// carries must still be those of ITS call site after other expectations have failed. case: n = [kind...], each kind
-// one failing helper call (0..5 relation macros on ints, 6 expect, 7 expect_msg with one of three literals, 8
-// expect_raises on a function that returns); every exception is kept (by copy) and all kept ones are re-verified
-// after each new failure and once more at the end.
+// carries must still be those of ITS call site after other expectations have failed. case: n = [step...], each step
+// = kind + 11 * where: one failing helper call (kind 0..5 relation macros on ints, 6 expect, 7..9 expect_msg with one
+// of three literals, 10 expect_raises on a function that returns) made under ambient state `where` (see in_context);
+// every exception is kept (by copy) and all kept ones are re-verified after each new failure and once more at the end.
 struct Kept {
   phosg::expectation_failed e;
   std::string msg; // expected message literal ("" = do not read msg: built at run time)
@@ -433,6 +742,7 @@ static void run_retain(const Case& c) {
   };
   for (size_t idx = 0; idx < c.n.size(); idx++) {
     uint64_t kind = c.u(idx) % 11;
+    uint64_t where = (c.u(idx) / 11) % kNumWhere;
     uint64_t line = 0;
     std::string msg, what_part;
     int64_t a = 1, b = 2; // operands are always named a and b: the macros stringify them into the message
@@ -442,6 +752,7 @@ static void run_retain(const Case& c) {
       b = 1;
     }
     bool caught = false;
+    auto step = [&] {
     try {
       switch (kind) {
         case 0: SITE(expect_eq(a, b)); msg = kRelMsg[0]; break;
@@ -474,8 +785,12 @@ static void run_retain(const Case& c) {
       }
       what_part = msg;
       kept.push_back(Kept{e, msg, line, what_part});
+    } catch (...) {
+      // anything else: not kept, reported below as "did not throw expectation_failed" (nothing may leave `step`)
     }
-    VCHECK(caught, "retained-must-fail", "helper kind ", kind, " did not throw expectation_failed");
+    };
+    in_context(where, step);
+    VCHECK(caught, cat("retained-must-fail", at(where)), "helper kind ", kind, " did not throw expectation_failed");
     verify_all(idx);
   }
   verify_all(c.n.size());
@@ -485,7 +800,7 @@ static void run_retain(const Case& c) {
 static Case gen_retain() {
   Case c("retain");
   uint64_t len = 1 + vg::below(8);
-  for (uint64_t i = 0; i < len; i++) c.N(vg::below(11));
+  for (uint64_t i = 0; i < len; i++) c.N(vg::below(11) + 11 * gen_where());
   return c;
 }
 
@@ -506,7 +821,22 @@ static void enum_retain(Enum& e) {
       e.exec(c);
     }
   }
-  e.complete("every sequence of 1..3 failing helper calls over 11 helper kinds, all exceptions retained and re-verified after each later failure");
+  // every sequence of 1..2 steps over 11 kinds x 5 ambient states
+  const uint64_t kSteps = 11 * kNumWhere;
+  for (uint64_t len = 1; len <= 2 && !e.stop; len++) {
+    uint64_t total = len == 1 ? kSteps : kSteps * kSteps;
+    for (uint64_t code = 0; code < total && !e.stop; code++, idx++) {
+      if (!e.mine(idx)) continue;
+      Case c("retain");
+      uint64_t t = code;
+      for (uint64_t k = 0; k < len; k++) {
+        c.N(t % kSteps);
+        t /= kSteps;
+      }
+      e.exec(c);
+    }
+  }
+  e.complete("every sequence of 1..3 failing helper calls over 11 helper kinds (plain), and every sequence of 1..2 over 11 kinds x 5 ambient states; all exceptions retained and re-verified after each later failure");
 }
 
 int main(int argc, char** argv) {
@@ -516,5 +846,6 @@ int main(int argc, char** argv) {
   checks.push_back({"rel_dbl", run_rel_dbl, gen_rel_dbl, 100000, 800000, 100, enum_rel_dbl});
   checks.push_back({"rel_str", run_rel_str, gen_rel_str, 100000, 800000, 100, enum_rel_str});
   checks.push_back({"retain", run_retain, gen_retain, 20000, 200000, 100, enum_retain});
+  checks.push_back({"truth", run_truth, gen_truth, 100000, 800000, 100, enum_truth});
   return main_(argc, argv, checks);
 }
